@@ -345,3 +345,56 @@ package eval
 //@   exit [sort-error-reported-and-nothing-output] ncallsof("sort.Stable") == 1 && !(s.err === nil) ==> result === s.err && ncallsof("ValueOutput.Put") == 0
 //@   exit [all-values-output] result === nil ==> ncallsof("ValueOutput.Put") == len(values)
 //@   exit [output-in-sorted-order] result === nil ==> (forall k int :: 0 <= k && k < len(values) ==> callis(ncalls - len(values) + k, "ValueOutput.Put") && callarg(ncalls - len(values) + k) === values[k])
+
+// ---------------------------------------------------------------------------
+// C22: a module is evaluated at most once and shared (sequential contract; the
+// module table is the Go map Evaler.modules, keyed by string content).
+
+// Parsing and compiling a module does not touch the module table (assumed).
+//@ func Frame.PrepareEval
+//@   trusted
+//@   pure
+
+// evalModule: the namespace is installed under the key BEFORE the module's code
+// runs (so a circular import finds it instead of recursing), the code runs at
+// most once, and a module whose evaluation fails is removed again.
+//@ func evalModule
+//@   props C22
+//@   nosafety
+//@   log Frame.PrepareEval fv
+//@   results ns err
+//@   before fv [installed-before-exec] fm.Evaler.modules != nil ==> haskey(fm.Evaler.modules, key) && fm.Evaler.modules[key] === ns
+//@   exit [prepared-first] callis(0, "Frame.PrepareEval") && ncallsof("Frame.PrepareEval") == 1
+//@   exit [not-run-if-static-error] !(callerr(0) === nil) ==> ncalls == 1 && err === callerr(0) && haskey(fm.Evaler.modules, key) == old(haskey(fm.Evaler.modules, key))
+//@   exit [run-exactly-once-otherwise] callerr(0) === nil ==> ncallsof("fv") == 1
+//@   exit [failed-module-not-remembered] ncallsof("fv") == 1 && !(callres(1) === nil) ==> !(err === nil) && !haskey(fm.Evaler.modules, key)
+//@   exit [success-returns-installed-namespace] ncallsof("fv") == 1 && callres(1) === nil ==> err === nil && ns === callres(0).(*Ns)
+
+// useFromFile: a module already in the table is returned as is - nothing is
+// read, loaded or evaluated again; otherwise it is evaluated at most once and
+// keyed by its path (not by the spec it was imported under).
+//@ func useFromFile
+//@   props C22
+//@   nosafety
+//@   log evalModule readFileUTF8 pluginOpen os.Stat
+//@   results ns err
+//@   exit [cached-module-shared-not-reevaluated] old(haskey(fm.Evaler.modules, path)) ==> ncalls == 0 && err === nil && ns === old(fm.Evaler.modules[path])
+//@   exit [evaluated-at-most-once] ncallsof("evalModule") <= 1
+//@   exit [keyed-by-path] forall k int :: 0 <= k && k < ncalls && callis(k, "evalModule") ==> callarg1(k) === path
+//@   exit [evaluation-result-returned] ncallsof("evalModule") == 1 ==> callis(ncalls - 1, "evalModule") && err === callerr(ncalls - 1)
+
+// use: relative imports resolve against the importing file when the code comes
+// from a file, else against the working directory; library directories are
+// tried in order and the first result that is not "no such module" is returned.
+//@ func use
+//@   props C22
+//@   nosafety
+//@   log filepath.Dir os.Getwd useFromFile evalModule
+//@   results ns err
+//@   loop 1 invariant ncallsof("filepath.Dir") == 0 && ncallsof("os.Getwd") == 0 && ncallsof("evalModule") == 0
+//@   loop 1 invariant ncalls == ncallsof("useFromFile")
+//@   loop 1 invariant forall k int :: 0 <= k && k < ncalls ==> istype(callerr(k), NoSuchModule)
+//@   exit [relative-to-importing-file] ncallsof("filepath.Dir") >= 1 ==> old(fm.src.IsFile) && ncallsof("filepath.Dir") == 1 && callis(0, "filepath.Dir") && callarg(0) === old(fm.src.Name) && ncallsof("os.Getwd") == 0
+//@   exit [relative-to-cwd-when-not-from-file] ncallsof("os.Getwd") >= 1 ==> !old(fm.src.IsFile) && ncallsof("os.Getwd") == 1 && callis(0, "os.Getwd") && ncallsof("filepath.Dir") == 0
+//@   exit [predefined-module-shared] old(haskey(fm.Evaler.modules, spec)) && ncallsof("filepath.Dir") + ncallsof("os.Getwd") == 0 ==> ncalls == 0 && err === nil && ns === old(fm.Evaler.modules[spec])
+//@   exit [only-missing-modules-are-skipped] forall k int :: 0 <= k && k < ncalls - 1 && callis(k, "useFromFile") && callis(k + 1, "useFromFile") ==> istype(callerr(k), NoSuchModule)
